@@ -1,5 +1,5 @@
 (* C16 — criteria run in position order; invalid solver option sets are refused. *)
-From MP Require Import Opts.SolverOpts Proofs.OptsProofs LP.Oracle Proofs.RunProofs.
+From MP Require Import Opts.SolverOpts Run.Main Text.Render Proofs.OptsProofs LP.Oracle Proofs.RunProofs Proofs.MainProofs.
 Local Open Scope list_scope. Open Scope Z_scope.
 
 (* the slot-array algorithm returns the requested criteria in increasing order of position, each with its
@@ -17,6 +17,27 @@ Theorem C16_reported_prefix : forall base solve M cs s s',
   exists j, (j <= length cs)%nat /\ r_info s' = r_info s +++ concat_str (map (crit_info M) (firstn j cs)).
 Proof. intros base solve M cs s s' Hi Hr H. exact (proj2 (run_crits_inv base solve M cs s s' Hi Hr H)). Qed.
 Print Assumptions C16_reported_prefix.
+
+(* "Before reading the instance or solving it refuses ...": on the Solver as a whole (Run/Main.v solver_new: parse,
+   then open and import the file, then the session) the outcome is the usage error exactly for the unacceptable option
+   sets, whatever the file is (present, absent, malformed) *)
+Theorem C16_refused_before_reading : forall c file t0,
+  solver_new c file t0 = SUsage <-> acceptable_ns (c_ns c) (c_twopl c) (c_stab c) = false.
+Proof. exact usage_iff_unacceptable. Qed.
+Print Assumptions C16_refused_before_reading.
+
+(* an acceptable option set on a file of the documented format starts the session on the denoted instance with the
+   criteria in increasing order of position, extras kept with their criterion *)
+Theorem C16_accepted_starts_session : forall c A trailer t0,
+  acceptable_ns (c_ns c) (c_twopl c) (c_stab c) = true ->
+  wf_ast (c_na c) (c_twopl c) A = true ->
+  solver_new c (Some (render (c_na c) A trailer)) t0 =
+    SReady (init_session (denote (c_na c) (c_twopl c) A)
+                         (mkOpts (c_pc c) (c_stab c)
+                                 (map (fun e => (e_crit e, e_extras e)) (by_position (SolverOpts.entries (c_ns c)))))
+                         (c_bf c) (c_twopl c) t0).
+Proof. exact accepted_starts_session. Qed.
+Print Assumptions C16_accepted_starts_session.
 
 Example C16_example :
   parse_ns [Some [7]; None; Some [2; 3]; None; Some [9; 1; 0]; None; None; None; None] true false
